@@ -43,6 +43,8 @@ struct Case {
     reader_limit: Option<u64>,
     read_chunk: usize,
     pending_every: u64,
+    /// write buffering of the simulated backend (bytes become visible to the reader at flush/finish)
+    write_buffer: u64,
     fault: Option<Fault>,
     use_new_sink: bool,
     /// fault-free cases: every writer keeps its sink alive until the reader has delivered all the
@@ -88,6 +90,7 @@ fn parse(v: &Value) -> Option<Case> {
         },
         read_chunk: v.get("read_chunk")?.as_u64()? as usize,
         pending_every: v.get("pending_every")?.as_u64()?,
+        write_buffer: v.get("write_buffer").and_then(|x| x.as_u64()).unwrap_or(0).min(1 << 20),
         hold_writers: v.get("hold_writers").and_then(|x| x.as_bool()).unwrap_or(false) && fault.is_none() && single_writer,
         fault,
         use_new_sink: v.get("use_new_sink")?.as_bool()?,
@@ -162,6 +165,7 @@ impl Scenario for SpillChannel {
             "reader_limit": if rng.chance(1, 6) { json!(rng.range(0, 2)) } else { Value::Null },
             "read_chunk": *rng.pick(&[0u64, 0, 1, 7, 64]),
             "pending_every": *rng.pick(&[0u64, 0, 1, 2]),
+            "write_buffer": *rng.pick(&[0u64, 0, 24, 200, 8192]),
             "fault": fault,
             "use_new_sink": rng.chance(1, 2),
             "hold_writers": !self.faults && rng.chance(1, 2),
@@ -182,6 +186,7 @@ impl Scenario for SpillChannel {
 fn run(c: &Case) {
     let hist: Hist = Arc::new(Mutex::new(Vec::new()));
     let disk = SimDisk::new(c.fault.clone().into_iter().collect(), c.read_chunk, c.pending_every);
+    disk.set_write_buffer(c.write_buffer);
     let env = RuntimeEnvBuilder::new()
         .with_disk_manager_builder(
             DiskManagerBuilder::default()
@@ -445,7 +450,7 @@ pub fn check() -> Check {
         scenarios: vec![Box::new(SpillChannel { faults: false }), Box::new(SpillChannel { faults: true })],
         cases_quick: 10_000,
         cases_thorough: 200_000,
-        rule: "cases: seeded workloads (spsc or mpsc with 1-3 writers via clone/new_sink, 0-4 batches each incl. empty ones, rotation after every/k/no batches, reader draining or dropped after k, in half of the fault-free cases every writer keeps its sink alive until the reader has delivered that writer's batches (wake-up on data, not only on the last drop), SimDisk read chunking 1B..all and injected Pending), 40% of them with one scripted disk fault (k-th write/flush/finish/create, torn or not, sticky or not, position spread over the whole run); each case explored under seeded random and PCT shuttle schedules with scheduling points at every pool/file/disk lock. distinct = distinct (case, recorded schedule); non-trivial = some decision had >= 2 runnable tasks",
+        rule: "cases: seeded workloads (spsc or mpsc with 1-3 writers via clone/new_sink, 0-4 batches each incl. empty ones, rotation after every/k/no batches, reader draining or dropped after k, in half of the fault-free cases every writer keeps its sink alive until the reader has delivered that writer's batches (wake-up on data, not only on the last drop), SimDisk read chunking 1B..all, injected Pending and write buffering of 0/24/200/8192 bytes (bytes visible to the reader only at flush/finish)), 40% of them with one scripted disk fault (k-th write/flush/finish/create, torn or not, sticky or not, position spread over the whole run); each case explored under seeded random and PCT shuttle schedules with scheduling points at every pool/file/disk lock. distinct = distinct (case, recorded schedule); non-trivial = some decision had >= 2 runnable tasks",
         assumptions: vec![
             "the disk is SimDisk (in-memory, behind TempFileFactory/SpillFile/SpillWriter); it mirrors the default backend's read-until-EOF-then-end semantics",
             "shuttle executes atomics and locks sequentially consistently",
